@@ -236,24 +236,22 @@ impl FsCommand {
         // The first one that exists must be a directory.
         let mut dir = target.parent();
         while let Some(d) = dir {
-            match fs::metadata(d.to_path_buf()) {
+            // One look at each directory: it may be created by another thread at any moment.
+            let not_a_directory = || {
+                refuse(
+                    ErrorKind::AlreadyExists,
+                    format!("{} is not a directory", d.display()),
+                )
+            };
+            match d.to_path_buf().symlink_metadata() {
                 Ok(m) if m.is_dir() => break,
-                Ok(_) => {
-                    return refuse(
-                        ErrorKind::AlreadyExists,
-                        format!("{} is not a directory", d.display()),
-                    )
-                }
-                Err(e) if e.kind() == ErrorKind::NotFound => {
-                    // a dangling symbolic link is in the way as well
-                    if d.to_path_buf().symlink_metadata().is_ok() {
-                        return refuse(
-                            ErrorKind::AlreadyExists,
-                            format!("{} is not a directory", d.display()),
-                        );
-                    }
-                    dir = d.parent();
-                }
+                Ok(m) if m.file_type().is_symlink() => match fs::metadata(d.to_path_buf()) {
+                    Ok(m) if m.is_dir() => break,
+                    // a link to something else, or a dangling link
+                    _ => return not_a_directory(),
+                },
+                Ok(_) => return not_a_directory(),
+                Err(e) if e.kind() == ErrorKind::NotFound => dir = d.parent(),
                 Err(e) => return refuse(e.kind(), e.to_string()),
             }
         }
